@@ -328,3 +328,31 @@ _EXTRA4 = {
 }
 for _k, _v in _EXTRA4.items():
     CLAIMED[_k]["text"] = CLAIMED[_k]["text"].rstrip() + " " + _v.strip()
+
+
+# clauses added after the fifth round of seeded changes
+_REF = (" Rule REF (spec/refusals.json): the functions of this property that must succeed on valid input gain no new kind of refusal "
+        "(explicit error variant or `?`-forwarded callee) beyond the reviewed inventory.")
+_EXTRA5 = {
+    "C01": "Also (round 5): condition pre-charge region (shared C04.2)." + _REF,
+    "C02": "Also (round 5): tree-hash atom/pair recipes (shared C17.2); pre-charge region; RESERVE_FEE / CREATE_COIN argument rows (shared C01.2)." + _REF,
+    "C03": "Also (round 5): assert_not_ephemeral exact (keyed on HAS_RELATIVE_CONDITION only)." + _REF,
+    "C04": "Also (round 5): run_program receives the cost_left local itself; byte cost = program.len() * cost_per_byte; parse_opcode table (shared C01.1).",
+    "C05": "Also (round 5): both verifiers receive state.pkm_pairs.iter().map(..) unmodified; one factor per pair in the cached verifier (shared C15.5).",
+    "C06": "Also (round 5): all-pairs-verified (shared C05.5).",
+    "C07": _REF.strip(),
+    "C08": "Also (round 5): entry-point validation and announcement arms of the effect table (shared C01.5 / C01.4)." + _REF,
+    "C09": "Also (round 5): Coin::coin_id ladder (shared C11.1), sanitiser atoms incl. value-based check_nil (shared C01.3)." + _REF,
+    "C10": _REF.strip(),
+    "C11": "Also (round 5): MatchByte<BYTE> decoder decision table over all 256 values (C11.5).",
+    "C12": _REF.strip(),
+    "C13": _REF.strip(),
+    "C14": _REF.strip(),
+    "C15": _REF.strip(),
+    "C16": "Also (round 5): SecretKey::from_bytes = zero key or blst_sk_check (exact)." + _REF,
+    "C17": "Also (round 5): the bytes hashed for an atom are the allocator's own view of the popped node." + _REF,
+    "C18": _REF.strip(),
+    "C19": "Also (round 5): SingletonArgs::from_clvm tests the curry terminator by length and bytes; fingerprint per spend (C19.5)." + _REF,
+}
+for _k, _v in _EXTRA5.items():
+    CLAIMED[_k]["text"] = CLAIMED[_k]["text"].rstrip() + " " + _v.strip()
